@@ -560,6 +560,7 @@ func (rc *runCtx) run() int {
 	}
 	results := make([]batchResult, len(jobs))
 	sem := make(chan struct{}, par)
+	var acquire sync.Mutex // one job at a time collects its slots: weighted jobs cannot dead-lock each other with partial holdings
 	var wg sync.WaitGroup
 	for i := range jobs {
 		i := i
@@ -573,9 +574,11 @@ func (rc *runCtx) run() int {
 		}
 		go func() {
 			defer wg.Done()
+			acquire.Lock()
 			for k := 0; k < weight; k++ {
 				sem <- struct{}{}
 			}
+			acquire.Unlock()
 			results[i] = rc.runBatch(jobs[i])
 			for k := 0; k < weight; k++ {
 				<-sem
